@@ -1012,7 +1012,8 @@ for i in range(1500 if chk.thorough else 150):
     maps_enc, rawb_enc = enc_block_maps(blocks, rawb)
     mods_enc, rawm_enc = enc_mod_maps(mods, rawm)
     ln = line('mapmod', enc_atoms(mol), [list(e) for e in mol.edges], maps_enc, rawb_enc, mods_enc, rawm_enc)
-    errs = mod_oracle(mol, out, logs, mods, rawm, meta['nres']) if status == 'ok' else []
+    errs = (mod_oracle(mol, out, logs, mods, rawm, meta['nres']) if status == 'ok' else
+            [('no_crash', 'do_mapping raised %s on a molecule whose modifications all fit their mappings' % status)])
     has_new = any(a.get('PTM_atom') for m in mods for _, a in m.block_to.nodes(data=True))
     mod_lines.append(ln)
     mod_recs.append(('mod-%d' % i, canon_mod(status, out, logs), errs, has_new, meta, status, len(rawm)))
